@@ -59,6 +59,8 @@ type Ctx struct {
 	Set bool
 }
 
+const tableCap = 1 << 14
+
 type ctxEntry struct {
 	id uint64
 	c  Ctx
@@ -82,7 +84,11 @@ func (s *Sim) ctxSet(id uint64, c Ctx) {
 			return
 		}
 	}
-	s.ctx = append(s.ctx, ctxEntry{id, c})
+	if len(s.ctx) == cap(s.ctx) {
+		panic("simcore: context table full")
+	}
+	s.ctx = s.ctx[:len(s.ctx)+1]
+	s.ctx[len(s.ctx)-1] = ctxEntry{id, c}
 }
 
 //go:norace
@@ -125,9 +131,12 @@ type Stats struct {
 
 // Sim is one simulated execution.
 type Sim struct {
-	mu     sync.Mutex
-	parked []parkedEntry
-	ctx    []ctxEntry // goroutine id -> context; a slice, not a map: runtime map code reports to the race detector even from norace callers
+	mu sync.Mutex
+	// Fixed-capacity tables touched by parked goroutines. No maps and no
+	// append: runtime map and growslice code reports its accesses to the race
+	// detector even when the caller is //go:norace.
+	parked []parkedEntry // len <= tableCap, never reallocated
+	ctx    []ctxEntry    // goroutine id -> context
 
 	live     atomic.Int64 // top-level goroutines not yet returned
 	panics   []string
@@ -148,6 +157,9 @@ var cur atomic.Pointer[Sim]
 // New creates a simulator; Install makes it the process-wide current one.
 func New(policy Policy, stepCap int) *Sim {
 	s := &Sim{Policy: policy, StepCap: stepCap, hash: 1469598103934665603}
+	s.selfID = goid() // the goroutine that creates the simulator is the scheduler
+	s.parked = make([]parkedEntry, 0, tableCap)
+	s.ctx = make([]ctxEntry, 0, tableCap)
 	s.Stats.SitePark = map[Site]int{}
 	s.Stats.Switches = map[uint32]int{}
 	s.seen = map[Label]struct{}{}
@@ -188,6 +200,9 @@ func (s *Sim) yield(l Label) {
 	if !s.siteOn[l.Site&255] {
 		return
 	}
+	if goid() == s.selfID {
+		return // the scheduler goroutine itself (model construction evaluating a wrapped leaf)
+	}
 	if m := s.siteMod[l.Site&255]; m > 1 {
 		if uint32(mix(l.A^l.B*0x9e3779b97f4a7c15)>>33)%m != 0 {
 			return
@@ -197,7 +212,11 @@ func (s *Sim) yield(l Label) {
 	g := new(sync.Mutex)
 	g.Lock()
 	s.mu.Lock()
-	s.parked = append(s.parked, parkedEntry{l, g})
+	if len(s.parked) == cap(s.parked) {
+		panic("simcore: parked table full")
+	}
+	s.parked = s.parked[:len(s.parked)+1]
+	s.parked[len(s.parked)-1] = parkedEntry{l, g}
 	s.mu.Unlock()
 	parkOnGate(g)
 	raceEnable()
@@ -373,7 +392,9 @@ func (s *Sim) fold(v uint64) {
 // nothing is parked (finished), or nothing can run (deadlock), or a bound
 // is hit. It must be called from the goroutine that owns the simulator.
 func (s *Sim) Run() Verdict {
-	s.selfID = goid()
+	if id := goid(); id != s.selfID {
+		return Verdict{Kind: "harness", Detail: "Run called from a goroutine other than the one that created the simulator"}
+	}
 	for {
 		snap, ok := s.waitQuiescent()
 		if !ok {
@@ -382,10 +403,8 @@ func (s *Sim) Run() Verdict {
 		if snap.N > s.Stats.MaxGoroutines {
 			s.Stats.MaxGoroutines = snap.N
 		}
-		s.mu.Lock()
-		entries := s.parked
+		entries := s.tableCopy()
 		if len(entries) == 0 {
-			s.mu.Unlock()
 			if s.live.Load() == 0 {
 				return Verdict{Kind: "finished", Steps: s.Stats.Steps, TraceHash: s.hash}
 			}
@@ -398,7 +417,6 @@ func (s *Sim) Run() Verdict {
 		sort.Slice(entries, func(i, j int) bool { return labelLess(entries[i].lab, entries[j].lab) })
 		for i := 1; i < len(entries); i++ {
 			if entries[i].lab == entries[i-1].lab {
-				s.mu.Unlock()
 				return Verdict{Kind: "duplicate-label", Detail: "two goroutines parked with the same label (harness bug)", Steps: s.Stats.Steps, TraceHash: s.hash}
 			}
 		}
@@ -408,13 +426,10 @@ func (s *Sim) Run() Verdict {
 		}
 		idx, diverged := s.Policy.Choose(s.Stats.Steps, labs, &s.Stats)
 		if diverged || idx < 0 || idx >= len(entries) {
-			s.mu.Unlock()
 			return Verdict{Kind: "replay-diverged", Detail: "recorded choice does not fit the parked set", Steps: s.Stats.Steps, TraceHash: s.hash}
 		}
 		chosen := entries[idx]
-		entries = append(entries[:idx], entries[idx+1:]...)
-		s.parked = entries
-		s.mu.Unlock()
+		s.tableRemove(chosen.gate)
 
 		// bookkeeping (scheduler goroutine only)
 		st := &s.Stats
@@ -449,6 +464,41 @@ func (s *Sim) Run() Verdict {
 	}
 }
 
+// tableCopy returns a private, sorted-later copy of the parked table.
+//
+//go:norace
+func (s *Sim) tableCopy() []parkedEntry {
+	s.mu.Lock()
+	out := make([]parkedEntry, len(s.parked))
+	for i := range s.parked {
+		out[i] = s.parked[i]
+	}
+	s.mu.Unlock()
+	return out
+}
+
+//go:norace
+func (s *Sim) tableRemove(g *sync.Mutex) {
+	s.mu.Lock()
+	for i := range s.parked {
+		if s.parked[i].gate == g {
+			s.parked[i] = s.parked[len(s.parked)-1]
+			s.parked[len(s.parked)-1] = parkedEntry{}
+			s.parked = s.parked[:len(s.parked)-1]
+			break
+		}
+	}
+	s.mu.Unlock()
+}
+
+//go:norace
+func (s *Sim) tableLen() int {
+	s.mu.Lock()
+	n := len(s.parked)
+	s.mu.Unlock()
+	return n
+}
+
 // Quiesce waits until every other goroutine is stably blocked and returns the
 // snapshot (used for the goroutine census between renders).
 func (s *Sim) Quiesce() (Snapshot, bool) {
@@ -459,8 +509,4 @@ func (s *Sim) Quiesce() (Snapshot, bool) {
 }
 
 // ParkedCount returns the number of goroutines parked right now.
-func (s *Sim) ParkedCount() int {
-	s.mu.Lock()
-	defer s.mu.Unlock()
-	return len(s.parked)
-}
+func (s *Sim) ParkedCount() int { return s.tableLen() }
